@@ -21,6 +21,7 @@ import (
 	"sort"
 	"strconv"
 	"strings"
+	"syscall"
 	"time"
 
 	"github.com/richardwilkes/toolbox/log/rotation"
@@ -41,9 +42,26 @@ type rot struct {
 	seq    int
 }
 
+var scratchDir string
+
 func scratchBase() string {
+	if scratchDir == "" {
+		scratchDir = findScratch()
+	}
+	return scratchDir
+}
+
+func findScratch() string {
 	if d := os.Getenv("C12_TMP"); d != "" {
 		return d
+	}
+	// a memory file system keeps the run independent of disk contention (the model abstracts the disk anyway)
+	if fi, err := os.Stat("/dev/shm"); err == nil && fi.IsDir() {
+		if f, ferr := os.CreateTemp("/dev/shm", "c12-probe-"); ferr == nil {
+			f.Close()
+			os.Remove(f.Name())
+			return "/dev/shm"
+		}
 	}
 	return os.TempDir()
 }
@@ -152,17 +170,33 @@ func errStr(err error) string {
 	return "error"
 }
 
-func (a *rot) deadline() time.Duration {
-	if v := os.Getenv("C12_DEADLINE_MS"); v != "" {
+// cpuTime is the CPU time (user+system) consumed so far by this process.
+func cpuTime() time.Duration {
+	var ru syscall.Rusage
+	if err := syscall.Getrusage(syscall.RUSAGE_SELF, &ru); err != nil {
+		return 0
+	}
+	return time.Duration(ru.Utime.Nano() + ru.Stime.Nano())
+}
+
+func envMS(name string, def int) time.Duration {
+	if v := os.Getenv(name); v != "" {
 		if ms, err := strconv.Atoi(v); err == nil && ms > 0 {
 			return time.Duration(ms) * time.Millisecond
 		}
 	}
-	if a.hangs == 0 {
-		return 1500 * time.Millisecond
-	}
-	return 250 * time.Millisecond // a hang was already established in this process: do not pay the full wait again
+	return time.Duration(def) * time.Millisecond
 }
+
+// A Write of at most a few hundred bytes needs microseconds of CPU. It is declared hung when the process has burnt
+// spinBudget of CPU time while waiting for it (a runaway retry loop; robust against a loaded machine, where wall time
+// says little), or when wallBudget has passed (blocked for good).
+var (
+	spinBudget = envMS("C12_SPIN_MS", 250)
+	wallBudget = envMS("C12_WALL_MS", 10000)
+)
+
+const maxHangs = 12 // after that many hung writes the rest of the stream is skipped (the violation is established)
 
 type wres struct {
 	n   int
@@ -177,12 +211,19 @@ func (a *rot) write(b []byte) (wres, bool) {
 		n, err := r.Write(b)
 		ch <- wres{n, err}
 	}()
-	t := time.NewTimer(a.deadline())
-	defer t.Stop()
-	select {
-	case res := <-ch:
-		return res, true
-	case <-t.C:
+	cpu0, t0 := cpuTime(), time.Now()
+	tick := time.NewTicker(20 * time.Millisecond)
+	defer tick.Stop()
+wait:
+	for {
+		select {
+		case res := <-ch:
+			return res, true
+		case <-tick.C:
+			if cpuTime()-cpu0 >= spinBudget || time.Since(t0) >= wallBudget {
+				break wait
+			}
+		}
 	}
 	// The writer spins inside Write holding the lock. Make it fail so that it stops burning a core: replace the
 	// log directory by a regular file (MkdirAll then errors out and Write returns).
@@ -281,6 +322,9 @@ func (a *rot) Run(line string) string {
 	f := strings.Fields(line)
 	if len(f) == 0 {
 		return "bad-op"
+	}
+	if a.hangs >= maxHangs {
+		return "skipped-after-crash" // token of vlib/core.py for lines that were not executed
 	}
 	if f[0] == "reset" {
 		return a.reset(f)
